@@ -145,6 +145,8 @@ def register(reg):
                        "and %(nl)s[%(d)s][q].rewards is old(%(nl)s[%(d)s][q].rewards) "
                        "and %(nl)s[%(d)s][q].rewards[0] == old(%(nl)s[%(d)s][q].rewards[0]) "
                        "for q in range(len(%(nl)s[%(d)s])))" % dict(nl=NL, d=D), "C12 C03"),
+        ("chosen-still-listed", "all(self.chosen[c] in %(nl)s[self.chosen[c].depth] and self.chosen[c].depth <= self.partition.depth "
+                                "for c in range(len(self.chosen)))" % dict(nl=NL), "C12 C07"),
         ("fresh-kids", "max_node.children is not None and max_node in %(nl)s[%(d)s] and not max_node.opened and "
                        "all(len(max_node.children[j].rewards) == 0 and not max_node.children[j].opened "
                        "for j in range(len(max_node.children)))" % dict(nl=NL, d=D), "C12"),
